@@ -80,6 +80,13 @@ def footprints(chk, rng, tier):
             try:
                 iters = record(mod, fn, args, pos)
             except Exception as exc:  # pylint: disable=broad-except
+                from vp.core import _raised_in_repo
+                in_repo, frames = _raised_in_repo(exc.__traceback__)
+                if in_repo:
+                    # the kernel's own Python source raised on arguments every unchanged kernel accepts
+                    chk.violation("total", {"kernel": name, "exception": type(exc).__name__}, {"exception": repr(exc)[:300], "frames": frames},
+                                  f"kernel {name} raised {exc!r} on a {rows}x{cols}x{nd} volume")
+                    continue
                 raise MachineryFailure(f"footprint recording of {name} failed: {exc!r}") from exc
             chk.count(("footprint", name, rows, cols, nd))
             for li, loop_iters in enumerate(iters):
